@@ -42,6 +42,7 @@ class FnResult(object):
         self.secs = 0.0
         self.covers = []
         self.trusted_used = {}
+        self.callees = []
 
     def to_json(self):
         return {"function": self.key, "status": self.status, "message": self.message, "paths": self.paths,
@@ -49,7 +50,7 @@ class FnResult(object):
                 "obligations": [{"name": o.name, "kind": o.kind, "clause": o.clause, "props": list(o.props),
                                  "status": o.status, "backend": o.backend, "secs": round(o.secs, 4),
                                  "reason": o.reason, "sig": o.sig, "cex": o.cex, "extra": {k: v for k, v in (o.extra or {}).items() if isinstance(v, (str, int, float, bool))}} for o in self.obligations],
-                "covers": self.covers, "trusted_used": self.trusted_used}
+                "covers": self.covers, "trusted_used": self.trusted_used, "callees": self.callees}
 
 
 def split_key(key):
@@ -145,6 +146,8 @@ def verify_function(key, table, fields, monitor=None, timeout_ms=None, cex_fn=No
     t0 = time.time()
     res = FnResult(key)
     T.TRUSTED_USED.clear()
+    from . import contracts as _contracts0
+    _contracts0.USED_CONTRACTS.clear()
     V.reset_names()
     try:
         env = make_env(key, table, fields, monitor)
@@ -359,5 +362,7 @@ def verify_function(key, table, fields, monitor=None, timeout_ms=None, cex_fn=No
     res.covers = [{"paths": len(outs), "returns": sum(1 for o in outs if o.kind == RETURN),
                    "raises": sum(1 for o in outs if o.kind == RAISE)}]
     res.trusted_used = dict(T.TRUSTED_USED)
+    from . import contracts as _contracts
+    res.callees = sorted(_contracts.USED_CONTRACTS)
     res.secs = time.time() - t0
     return res
